@@ -229,12 +229,17 @@ def run_framed(u, ctx):
     from vf.checks import c04
     for L in range(1, u['L'] + 1):
         for body in itertools.product('VDAJ_', repeat=L):
-            seq = 'B_' + ''.join(body) + 'SHE'
-            lines = [c04.line_for(c, i) for i, c in enumerate(seq)]
-            text = '\n'.join(lines) + '\n'
-            c04.judge_text(ctx, text, {'kind': 'text', 'text': text, 'framed': seq},
-                           enumerated=True, klass='framed')
-            ctx.count('framed_texts')
+            # complete frame, and frames whose only "signature header" is a
+            # dash-escaped one inside the body
+            for tail in ('SHE', 'HE', 'E'):
+                seq = 'B_' + ''.join(body) + tail
+                for shift in (0, 1, 2):
+                    lines = [c04.line_for(c, i + shift) for i, c in enumerate(seq)]
+                    text = '\n'.join(lines) + '\n'
+                    c04.judge_text(ctx, text, {'kind': 'text', 'text': text,
+                                               'framed': seq},
+                                   enumerated=True, klass='framed')
+                    ctx.count('framed_texts')
 
 
 def run_unit(u, ctx):
